@@ -238,6 +238,67 @@ def eq_table(ctx, model, ci, fn, cons):
     return True
 
 
+def check_uniform_attributes(ctx, model):
+    """Classes whose __eq__ walks vars(self) / self.__dict__: every instance must carry the SAME attributes.  A constructor that assigns an attribute only on some
+    paths (the others falling back to a class-level default) gives vars(a) != vars(b), and the comparison then sees a difference from one side only."""
+    done = set()
+    for ci in [c for lst in model.classes.values() for c in lst]:
+        fn = ci.methods.get('__eq__')
+        if fn is None or not ci.file.startswith('mindsdb_sql/'):
+            continue
+        # the comparison walks the instance's own attribute dict: in __eq__ itself or in a helper of the same file it hands the object to
+        mod_fns = {n.name: n for n in ctx.src.tree(ci.file).body if isinstance(n, ast.FunctionDef)}
+        bodies, seen_h = [fn], set()
+        for f_ in bodies:
+            for n in ast.walk(f_):
+                if isinstance(n, ast.Call):
+                    nm = n.func.id if isinstance(n.func, ast.Name) else (n.func.attr if isinstance(n.func, ast.Attribute) and norm(n.func.value) == 'self' else None)
+                    tgt = mod_fns.get(nm) or (ci.methods.get(nm) if nm else None)
+                    if tgt is not None and nm not in seen_h and len(seen_h) < 6:
+                        seen_h.add(nm)
+                        bodies.append(tgt)
+        if not any((isinstance(n, ast.Call) and dotted(n.func) == 'vars') or (isinstance(n, ast.Attribute) and n.attr == '__dict__') for f_ in bodies for n in ast.walk(f_)):
+            continue
+        cons = f'{ci.name}.__eq__'
+        for sub in model.subclasses(ci.name):
+            for c2 in model.mro(sub):
+                f2 = c2.methods.get('__init__')
+                if f2 is None or c2.name in done:
+                    continue
+                done.add(c2.name)
+
+                def transfer(s_, st_):
+                    must, may = st_
+                    new = set()
+                    tg = []
+                    if isinstance(s_, ast.Assign):
+                        tg = s_.targets
+                    elif isinstance(s_, (ast.AnnAssign, ast.AugAssign)):
+                        tg = [s_.target]
+                    for t_ in tg:
+                        for e_ in (t_.elts if isinstance(t_, (ast.Tuple, ast.List)) else [t_]):
+                            if isinstance(e_, ast.Attribute) and isinstance(e_.value, ast.Name) and e_.value.id == 'self':
+                                new.add(e_.attr)
+                    if isinstance(s_, ast.Expr) and isinstance(s_.value, ast.Call) and dotted(s_.value.func) == 'setattr' and len(s_.value.args) >= 2 \
+                            and norm(s_.value.args[0]) == 'self' and isinstance(s_.value.args[1], ast.Constant):
+                        new.add(s_.value.args[1].value)
+                    return (must | frozenset(new), may | frozenset(new))
+                res = Flow(transfer, lambda a, b: (a[0] & b[0], a[1] | b[1])).run(f2, (frozenset(), frozenset()))
+                ends = [st_ for _, st_ in res.returns] + ([res.end] if res.end is not None else [])
+                sometimes = set()
+                for must, may in ends:
+                    sometimes |= set(may) - set(must)
+                alls = [set(must) for must, _ in ends]
+                if alls:
+                    sometimes |= set.union(*alls) - set.intersection(*alls)
+                ctx.count('uniform_constructors')
+                ctx.ob('C18.eq-symmetric', f'{c2.name}.__init__:uniform-attributes', not sometimes,
+                       f'{c2.name}.__init__ assigns {sorted(sometimes)} on some paths only: instances then differ in the attributes they carry, and {cons} compares '
+                       f'the attributes of the LEFT object only - a == b can be True while b == a is False', file=c2.file, line=f2.lineno,
+                       witness='ApplyTimeseriesPredictorStep(...) == ApplyTimeseriesPredictorStep(..., output_time_filter=f)')
+    ctx.floor('uniform_constructors', 20)
+
+
 def run(ctx):
     ctx.explanation = (
         'Protocol lints, exhaustive over all classes of mindsdb_sql: (1) ASTNode.copy is copy.deepcopy(self) and no AST class '
@@ -255,6 +316,7 @@ def run(ctx):
     ctx.setcount('ast_classes', len(ast_classes))
     all_classes = [ci for lst in model.classes.values() for ci in lst]
     ctx.setcount('classes', len(all_classes))
+    check_uniform_attributes(ctx, model)
 
     # (1) generic deepcopy
     base = model.get('ASTNode')
